@@ -320,6 +320,10 @@ def main():
         workbooks(rep, wd)
         formulas_reparse(rep)
         literal_export(rep)
+        # which blank cells an export holds: exactly the blank nodes Assemble.tla's machine
+        # creates for the layout (what drifts on re-import starts from this set)
+        from .. import asm
+        asm.check(rep, 1200 if tier() == 'quick' else 8000, seed() + 55, pid=PID, mode='export')
         rep.cov['rule'] = ('all strings over two adversarial alphabets stored as text '
                            'constants; seeded workbooks (names, arrays, cross-sheet/book '
                            'references, every constant kind) round-tripped through JSON, '
